@@ -60,6 +60,16 @@ theorem crypto_lookups_agree :
     Gen.Observed.crypto_keycert_GetCryptoKeySize = specCryptoRows ∧
     Gen.Observed.crypto_keycert_crypto_methods = specCryptoRows := by decide
 
+/-- the size tables *as the structure readers use them*, observed over all 65,536 codes through the readers
+    themselves: `ReadEncryptedLeaseSet` (+ `EncryptedLeaseSet.Validate`) takes a blinded key and a signature of
+    exactly the specification's lengths for exactly the specification's codes, `signature.ReadSignature` consumes
+    the specification's signature length, and the LeaseSet2 encryption-key validation (`ReadLeaseSet2` followed by
+    `LeaseSet2.Validate`) admits exactly the specification's key length for exactly its crypto codes -/
+theorem use_lookups_agree :
+    Gen.Observed.use_els = specSigRows ∧
+    Gen.Observed.use_readSignature = specSigRows.map (fun r => (r.1, -1, r.2.2)) ∧
+    Gen.Observed.use_ls2_key = specCryptoRows := by decide
+
 /-- the sweep saw no internal inconsistency (a lookup knowing an out-of-range code, two getters of one
     table disagreeing on whether a code is known, a "known" answer that is not a usable size) -/
 theorem sweep_consistent : Gen.Observed.markers = [] := by decide
